@@ -67,7 +67,9 @@ def run(chk, tier):
             for st_ in b['stmts']:
                 if 'lhs' in st_ and any(e['k'] == 'field' and e.get('of') == FLOW and e['n'] == 'entries' for e in st_['lhs']['p']):
                     ent_w.append(short(path))
-    if set(mc) <= {'FlowRegistry::register', 'FlowRegistry::lookup'} and set(ent_w) <= {'Flow::merge'}:
+    # merge is an operation of the registry: any (private) method of FlowRegistry may call it, nothing else
+    mc_paths = [c for c in cg.callers(fm['path'])]
+    if all(prog.fns[c].get('impl_adt') == REG or (prog.fns[c].get('parent') and prog.fns[prog.fns[c]['parent']].get('impl_adt') == REG) for c in mc_paths) and mc_paths and set(ent_w) <= {'Flow::merge'}:
         chk.ok('R1', 'entry-writers', 'Flow.entries written only by merge; merge called only by %s' % mc)
     else:
         chk.fail('R1', 'entry-writers', fn_loc(fm), 'recorded flows are modified outside merge (writers %s, merge callers %s)' % (sorted(set(ent_w)), mc), key='R1|entry-writers')
@@ -97,7 +99,8 @@ def run(chk, tier):
         chk.ok('R2', 'default', 'no Default impl', nontrivial=False)
     freg = prog.find(r'flows::FlowRegistry::register$')
     chk.fn_seen(freg['path'])
-    eng = RangeEngine(prog, inline_depth=0)
+    OPQ = [r'flows::Flow::check$', r'flows::Flow::merge$']
+    eng = RangeEngine(prog, inline_depth=2, opaque=OPQ, inline_filter=lambda c: prog.fns.get(c, {}).get('impl_adt') == REG)
     st = St()
     outs = eng.run(freg, [eng.sym_ref(st, 'self'), ('sym', 'flow')], st)
     n_new = 0
@@ -122,7 +125,7 @@ def run(chk, tier):
     flk = prog.find(r'flows::FlowRegistry::lookup$', unique=False)
     if flk:
         st = St()
-        outs = RangeEngine(prog, inline_depth=0).run(flk[0], [eng.sym_ref(st, 'self'), eng.sym_ref(st, 'flow')], st)
+        outs = RangeEngine(prog, inline_depth=2, opaque=OPQ, inline_filter=lambda c: prog.fns.get(c, {}).get('impl_adt') == REG).run(flk[0], [eng.sym_ref(st, 'self'), eng.sym_ref(st, 'flow')], st)
         if any(c[0] == 'call' and c[1].endswith('Vec::<T, A>::push') for o in outs for c in o.st.events) or \
                 any(e[0] == 'write' and 'next_flow_id' in e[5] for o in outs for e in o.st.events):
             chk.fail('R2', 'lookup', fn_loc(flk[0]), 'FlowRegistry::lookup creates a flow', key='R2|lookup')
@@ -229,7 +232,7 @@ def run(chk, tier):
     # register / lookup act on the first non-NoMatch flow and merge exactly on MatchMerge
     csv = prog.variant_names(CS)
     for f_ in [freg] + list(flk):
-        eng = RangeEngine(prog, inline_depth=0)
+        eng = RangeEngine(prog, inline_depth=2, opaque=OPQ, inline_filter=lambda c: prog.fns.get(c, {}).get('impl_adt') == REG)
         st = St()
         args = [eng.sym_ref(st, 'self'), ('sym', 'flow') if f_ is freg else eng.sym_ref(st, 'flow')]
         outs = eng.run(f_, args, st)
